@@ -10,6 +10,11 @@ def vocab():
     gen.KEYWORDS = [k for k in v['all'] if k and not k.startswith('$')] or gen.KEYWORDS     # as VALUES these are ordinary literals
     return v
 
+def line_limit():
+    """the stream reader's line limit as measured on the compiled program (harness op dump); None when none was found up to 32 MiB"""
+    n = json.load(open(os.path.join(BUILD, 'dump.json'))).get('max_token') or 0
+    return n if n > 0 else None
+
 def deep_lines():
     return gen.deep_lines()
 
